@@ -6,6 +6,7 @@ package dns
 import (
 	"net"
 
+	"github.com/bokysan/socketace/v2/internal/streams/dns/util"
 	"github.com/bokysan/socketace/v2/internal/util/enc"
 )
 
@@ -119,3 +120,41 @@ func VerifUserIn(c net.Conn) (future int, buffered int) {
 
 // VerifSetInSeq: the server-side session has received everything up to (not including) this sequence number.
 func VerifSetInSeq(c net.Conn, next uint16) { c.(*userConnection).in.NextSeqNo = next }
+
+// ---- the close / end-of-stream protocol (C17, C14: harness ops c17q, c17p)
+
+// VerifInWaiters / VerifClientInWaiters: how many Reads are parked in waitNonEmtpyQueue on this end's in-queue.
+func VerifInWaiters(c net.Conn) int                    { return c.(*userConnection).in.VerifWaiters() }
+func VerifClientInWaiters(cl *ClientDnsConnection) int { return cl.in.VerifWaiters() }
+
+// VerifOutWaiters: how many Writes are parked in waitEmptyQueue on a server-side connection's out-queue.
+func VerifOutWaiters(c net.Conn) int { return c.(*userConnection).out.VerifWaiters() }
+
+// VerifClientArrive appends the in-order packet with this data to the client's in-queue (what SendAndReceive does with the packet
+// of a successful answer).
+func VerifClientArrive(cl *ClientDnsConnection, data []byte) error {
+	return cl.in.Append(&util.Packet{SeqNo: cl.in.NextSeqNo, Data: data})
+}
+
+// VerifExpire does to one session what the expiry sweep does to a session it finds stale (the sweep goroutine itself sleeps a
+// minute between rounds and cannot be called): the three statements of its first loop, under the same lock.
+func (s *ServerDnsListener) VerifExpire(c net.Conn) {
+	u := c.(*userConnection)
+	s.usersLock.Lock()
+	defer s.usersLock.Unlock()
+	if s.connections[u.UserId] == u {
+		s.connections[u.UserId] = nil
+		s.oldConnections[u.UserId] = u
+		u.in.Close()
+	}
+}
+
+// VerifForget does what the sweep's second loop does to a retired session whose time is up.
+func (s *ServerDnsListener) VerifForget(c net.Conn) {
+	u := c.(*userConnection)
+	s.usersLock.Lock()
+	defer s.usersLock.Unlock()
+	if s.oldConnections[u.UserId] == u {
+		s.oldConnections[u.UserId] = nil
+	}
+}
